@@ -9,7 +9,11 @@ CHECKS = {}
 def add(pid, technique, text, note, ref):
     CHECKS[pid] = (technique, text, note, ref)
 
+NOT_APPLICABLE = {}
 exec(open(os.path.join(HERE, "tools", "manifest_table.py")).read())
+import glob
+for fn in sorted(glob.glob(os.path.join(HERE, "tools", "manifest.d", "*.py"))):
+    exec(open(fn).read())
 
 props = [json.loads(l)["id"] for l in open(os.path.join(HERE, "properties.jsonl"))]
 checks = []
